@@ -41,7 +41,9 @@ Fits(r, o, ob) ==
     [] o.k = "okbytes" -> ob.st = 0 /\ ob.ok /\ ob.bytes = o.data              \* Get Attribute Single: the attribute's octets
     \* (an API that does not expose the extended status reports it as <<65535>>: then only the status is compared)
     [] o.k = "err" -> ob.st = o.st /\ (ob.ext = o.ext \/ ob.ext = <<65535>>) /\ ~ob.ok
-    [] o.k = "anyfail" -> ob.st # 0 /\ ~ob.ok
+    \* (exact5: the observer states that this failure must be the documented "path destination unknown" status -- an unknown tag
+    \*  read over a connected session, C14)
+    [] o.k = "anyfail" -> ob.st # 0 /\ ~ob.ok /\ (ob.exact5 => ob.st = 5)
 RECURSIVE Explains(_, _, _, _, _)
 \* the observations are what issuing the requests one after the other on the tag model yields
 Explains(C, m, rs, obs, frag) ==
